@@ -109,7 +109,7 @@ func c36MovePanics(op *c37Op) bool {
 		if ref.InEdge() || ref.Key == nil || ref.MapKey == nil || len(ref.MapKey.Edges) != 0 {
 			continue
 		}
-		for j := 0; j < ref.KeyPathIndex; j++ {
+		for j := 0; j < ref.KeyPathIndex && j < len(ref.Key.Path); j++ {
 			if ref.Key.Path[j].Unbox().ScalarString() != "_" {
 				dotted = true
 			}
@@ -132,7 +132,7 @@ func c36MovePanics(op *c37Op) bool {
 }
 
 func c36KF(st *c41Step) []string {
-	if c36MovePanics(st.op) {
+	if st.movePanics {
 		return []string{"C36-move-with-descendants-dotted-key-panics"}
 	}
 	return nil
